@@ -263,6 +263,7 @@ func c12CKCase(r *Result, in c12CK, lean json.RawMessage) {
 
 func init() {
 	register("C12", func(r *Result, rng *rand.Rand, tier string) {
+		defer c12Timed("ck")()
 		n := 300
 		if tier == "thorough" {
 			n = 15000
